@@ -5,12 +5,13 @@ sys.path.insert(0, os.path.dirname(os.path.dirname(os.path.abspath(__file__))))
 import vlib
 from vlib import VERIF
 
-KNOWN_KEY = "event:lost-wakeup-notified-empty-trigger"
+FIXED_KEY = "event:lost-wakeup-notified-empty-trigger"   # fixed by /repo c0b284e: an occurrence is a plain VIOLATION now
+CRASH_KEY = "event:crash-between-cas-and-post-after-stale-promotion"
 # model pc tags (EAcc site numbers of model/Event.v): a site never exercised means the tie says nothing about it
 MODEL_SITES = {"5": "activate: data_ptr load", "10": "bit_set set_bit load", "11": "bit_set set_bit CAS", "20": "counting fetch_add",
                "30": "CAS Idle->Pending", "40": "trigger post", "50": "CAS Pending->Notified", "60": "CAS Notified->Idle",
                "61": "trigger try_wait", "62": "trigger timed_wait", "63": "trigger blocking_wait", "64": "store Idle",
-               "65": "trigger empty_buffer", "69": "drain: data_ptr load", "70": "bit_set swap", "71": "counting swap"}
+               "65": "trigger empty_buffer", "66": "second store Idle (after empty_buffer)", "69": "drain: data_ptr load", "70": "bit_set swap", "71": "counting swap"}
 
 
 def build_explorer():
@@ -51,25 +52,24 @@ def run(ctx):
     ctx.cov.update({
         "evaluations": r["cases"], "distinct_nontrivial": r["distinct_nontrivial"],
         "traces_validated_against_impl": r["cases"], "accesses_compared": r["ops"],
-        "known_class_executions": r["extra"].get("known_class_executions", 0),
+        "notified_empty_trigger_executions": r["extra"].get("notified_empty_trigger_executions", 0),
         "blocked_forever_benign": r["extra"].get("blocked_forever_benign", 0),
         "rule": "notifier/listener programs (1..3 notifiers x 1..2 notifies over ids in two words, listener 1..3 waits try/timed/blocking, BitSet and "
                 "CountingBitSet, trigger capacity unbounded and 1 with/without fail_when_buffer_is_full): schedules with <= %d preemptions (first %d per "
                 "program, depth-first from the non-preempting schedule) + seeded random schedules of random programs (ids {0,1,65} / {0,1,5}, capacity inf/1/2) "
-                "+ the lost-wake-up witnesses; for every program ALL schedules with <= 1 preemption are run first; each execution of the REAL event::common over a model trigger under the baton scheduler is compared access by "
+                "+ the schedules of the fixed lost wake-up (regression: must deliver); for every program ALL schedules with <= 1 preemption are run first; each execution of the REAL event::common over a model trigger under the baton scheduler is compared access by "
                 "access (location bijection, kind, both orderings, values, CAS outcome, every callback and return value, final state incl. blocked-forever verdict) "
                 "with the Coq step model on the same schedule; the oracle (kind=spec) is evaluated on the implementation's own observations" % (bound, maxex),
         "exhaustive": False,
     })
     smp = vlib.extract_case(jobs[0][1], driver, 1)
-    ctx.cov["samples"] = [{"job": "wit (known finding witness on the real code)", "execution": smp[:40]}]
+    ctx.cov["samples"] = [{"job": "wit (schedule of the fixed finding %s on the current code: delivers)" % FIXED_KEY, "execution": smp[:40]}]
     for lbl, cmd, rc, tail in r["failed_jobs"]:
         ctx.violation("correspondence job failed (harness or driver crashed): " + lbl, {"cmd": cmd, "rc": rc, "tail": tail}, no_input=True)
     spec_mm = [m for m in r["mismatch_lines"] if "kind=spec" in m[2]]
     model_mm = [m for m in r["mismatch_lines"] if "kind=model" in m[2]]
     reported = set()
     for lbl, cmd, line in spec_mm:
-        known = "LOST-WAKEUP-KNOWN-CLASS" in line
         sig = re.sub(r"\d+", "", line.split("] ", 1)[-1])
         if sig in reported:
             continue
@@ -81,10 +81,9 @@ def run(ctx):
         hdr = hist[0].split()[1:] if hist else []
         sline = [h for h in hist if h.startswith("S ")]
         replay = "%s one %s %s" % (exe, " ".join(hdr[:6]), sline[0][2:] if sline else "")
-        ctx.violation(("lost wake-up (known class: notification_state = Notified, trigger empty, listener blocked in blocking_wait, a notify that returned Ok undelivered): "
-                       if known else "event property violated by the implementation under a concrete schedule: ") + line,
-                      {"execution": hist, "harness_cmd": cmd, "how_to_rerun": replay}, key=KNOWN_KEY if known else None)
-    unkeyed_spec = [m for m in spec_mm if "KNOWN-CLASS" not in m[2]]
+        ctx.violation("event property violated by the implementation under a concrete schedule: " + line,
+                      {"execution": hist, "harness_cmd": cmd, "how_to_rerun": replay})
+    unkeyed_spec = spec_mm
     found = None
     if model_mm and not unkeyed_spec:
         # SEARCH phase: the tie broke and no explored execution violated the property outside the known class:
@@ -98,7 +97,7 @@ def run(ctx):
             for l in out.split("\n"):
                 if l.startswith("SEARCHED"):
                     searched += int(l.split()[1])
-                if l.startswith("SEARCH-FOUND") and not l.startswith("SEARCH-FOUND known") and found is None:
+                if l.startswith("SEARCH-FOUND") and found is None:
                     found = (a, l)
         ctx.cov["search_phase_executions"] = searched
         if found:
@@ -142,33 +141,48 @@ def run(ctx):
         ctx.violation("a real trigger does not refine the abstract trigger sequentially: " + l, {"line": l, "how_to_rerun": exe + " trig"})
     for l in [l for l in out.split("\n") if l.startswith("NOTE ")]:
         ctx.notes.append(l[5:])
-    # the known class on the REAL semaphore trigger (libc semaphore inside the real event::common): observable = a timed_wait
-    # that runs into its timeout although a notify returned Ok right after it began
+    # the schedule of the fixed finding on the REAL semaphore trigger (libc semaphore inside the real event::common): a timed_wait
+    # that runs into its timeout although a notify returned Ok right after it began would be the lost wake-up again
     rc, out = vlib.sh(exe + " sem 300 2>/dev/null", timeout=120)
     sem = [l for l in out.split("\n") if l.startswith("SEM")]
     ctx.cov["real_semaphore_trigger_replay"] = sem
     if any("lost_wakeup_on_real_semaphore=true" in l for l in sem):
-        ctx.violation("lost wake-up (known class) on the real semaphore trigger: " + " | ".join(sem), {"lines": sem, "how_to_rerun": exe + " sem 300"}, key=KNOWN_KEY)
+        ctx.violation("lost wake-up on the real semaphore trigger (schedule of the finding fixed by c0b284e): " + " | ".join(sem), {"lines": sem, "how_to_rerun": exe + " sem 300"})
     elif not any("control_immediate_wakeup=true" in l for l in sem):
         ctx.notes.append("real-semaphore replay inconclusive (timing): " + " | ".join(sem))
+    # residual window (known finding, needs a notifier crash = fault model of C04): replayed on the real code with the
+    # dying notifier parked for ever at its trigger post
+    rc, out = vlib.sh(exe + " crash 2>/dev/null", timeout=120)
+    cr = [l for l in out.split("\n") if l.startswith("CRASH-REPLAY")]
+    ctx.cov["crash_residual_window_replay"] = cr
+    for l in cr:
+        if "lost=true" in l:
+            ctx.violation("lost wake-up after a notifier crash between its state CAS and its trigger post (stale Pending->Notified promotion): " + l,
+                          {"line": l, "how_to_rerun": exe + " crash"}, key=CRASH_KEY)
+    if not cr:
+        ctx.notes.append("crash replay did not run")
     # the model-side search: the lost-wake-up configurations of the model are exactly the known class
     ok, xp = build_explorer()
     if ok:
-        tot = {"STATES": 0, "LOST": 0, "LOST_NOT_BAD": 0, "INVFAIL": 0}
+        tot = {"STATES": 0, "LOST_TERMINAL": 0, "LOST_NOT_BAD": 0, "INVFAIL": 0}
         insts = ["counting 1 inf tb 0,0", "bitset 10 inf bb 0|9,9", "counting 3 inf tbb 0,2|2,0", "bitset 10 1 btb 0,9|9,0 failfull"]
         if ctx.thorough():
             insts += ["bitset 10 inf tbb 0,9|9|0", "counting 2 2 dbb 0,1|1|0,0", "bitset 10 inf bbbb 1,9,1|9,1"]
-        for a in insts:
-            rc, out = vlib.sh(xp + " " + " ".join("'%s'" % x for x in a.split()), timeout=900)
-            for l in out.split("\n"):
-                p = l.split()
-                if p and p[0] in ("STATES", "LOST", "LOST_NOT_BAD"):
-                    tot[p[0]] += int(p[1])
-                if p and p[0] == "INVFAIL":
-                    tot["INVFAIL"] += 1
-        ctx.cov["model_exploration_all_schedules"] = dict(tot, instances=insts)
-        if tot["LOST_NOT_BAD"] or tot["INVFAIL"]:
-            ctx.violation("exhaustive exploration of the step model found a lost wake-up outside the known class or a state violating the proved invariant", tot, no_input=True)
+        for pol in (["model", "all", "one"] if ctx.thorough() else ["model", "one"]):
+            for a in insts:
+                rc, out = vlib.sh("EXPLORE_POL=%s EXPLORE_MAX=6000000 %s %s" % (pol, xp, " ".join("'%s'" % x for x in a.split())), timeout=1200)
+                for l in out.split("\n"):
+                    p = l.split()
+                    if p and p[0] in ("STATES", "LOST_TERMINAL", "LOST_NOT_BAD"):
+                        tot[p[0]] += int(p[1])
+                    if p and p[0] == "INVFAIL":
+                        tot["INVFAIL"] += 1
+        # sanity of the search itself: on the protocol before the repair it finds the old witness
+        rc, out = vlib.sh("EXPLORE_REPAIRED=0 %s counting 1 inf tb 0,0" % xp, timeout=300)
+        old_found = "WITNESS lost-terminal" in out
+        ctx.cov["model_exploration_all_schedules"] = dict(tot, instances=insts, old_protocol_witness_found=old_found)
+        if tot["LOST_TERMINAL"] or tot["LOST_NOT_BAD"] or tot["INVFAIL"] or not old_found:
+            ctx.violation("exhaustive exploration of the step model: a terminal lost wake-up, a state violating a proved invariant, or the search no longer finds the old protocol's witness", dict(tot, old_found=old_found), no_input=True)
     else:
         ctx.notes.append("model explorer did not build: " + str(xp)[-300:])
     if not proof_ok and not ctx.violations:
@@ -176,6 +190,7 @@ def run(ctx):
     ctx.assumptions = [
         "sequentially consistent interleaving at access granularity (weak-memory behaviours are not exhibited by the model; the memory ordering of every access site is pinned by the trace comparison)",
         "the trigger is abstract (token counter with capacity; how many tokens a wait / empty_buffer leave is a parameter of the theorems); the three real triggers are only checked sequentially against it; kernel wake-up latency is not covered",
+        "no thread crashes (a notifier dying between its state CAS and its trigger post after a stale promotion still loses a wake-up: known finding event:crash-between-cas-and-post-after-stale-promotion, replayed by the check); trigger capacity > 0",
         "one listener (thread 0) per event, any number of notifier threads; u64 sum of the counts returned by one drain not wrapped (unbounded N)",
         "tie = trace equality on the explored schedules; the gate (cargo paths override of iceoryx2-pal-concurrency-sync) is generated from /repo's current source",
     ]
